@@ -370,12 +370,12 @@ def generic_core_check(prop, tier, replay, level, mc_list, sim_list, go_tests, i
         env = dict(VERIF_IN=ind, VERIF_OUT=outd, CORE_RUNS=120 if thorough else 24, CORE_STEPS=1500 if thorough else 600)
         env.update(extra_env or {})
         go_core(scr, go_tests, env)
-        names = [n for n in ("core_replay", "core_drive", "core_clean", "core_stall", "core_pairs", "core_fates", "core_scripts") if os.path.exists(os.path.join(outd, n + ".ndjson"))]
+        names = [n for n in ("core_replay", "core_drive", "core_clean", "core_stall", "core_pairs", "core_fates", "core_scripts", "core_rtoforge") if os.path.exists(os.path.join(outd, n + ".ndjson"))]
         summarize(v, outd, names)
         # 5. TV
         for n in names:
             validate_traces(v, scr, prop, os.path.join(outd, n + ".ndjson"), n, invariants, known_map,
-                            conformance=(n != "core_pairs"))
+                            conformance=(n not in ("core_pairs", "core_rtoforge")))
         # 6. the same property at session level (real UDPSession / Listener over the in-memory network)
         if sess:
             import checks_sess
@@ -538,11 +538,14 @@ def check_c18(tier, replay):
         return [("forgedack", sim_cfg("stream", 60, forged="ForgedAcks", ticks="{1, 100, 30000}", maxtime=3000000)),
                 ("forgedackfast", sim_cfg("fast", 60, forged="ForgedAcks", ticks="{1, 10, 30000}", maxtime=3000000))]
     return generic_core_check(
-        "C18", tier, replay, "model_checking", mc, sim, "TestCoreReplay$|TestCoreClean$|TestCoreDrive$", inv,
+        "C18", tier, replay, "model_checking", mc, sim, "TestCoreReplay$|TestCoreClean$|TestCoreDrive$|TestCoreRtoForge$", inv,
         rule=("clean paths (FIFO, constant one-way delay D, no loss/duplication, reader keeps up, rcv_wnd >= min(snd_wnd,32), "
               "2D + peer interval < minimum RTO) in event-driven virtual time with both drives: no segment is transmitted twice; "
               "RTO bounds on every observed state including runs with forged ACK timestamps/sn from boundary classes and outages "
-              "of 30 s. Non-trivial = distinct (configuration, delay, drive) clean runs and behaviours containing forged ACKs"),
+              "of 30 s; acknowledgements whose echoed timestamp lies days or weeks in the past (the whole non-negative range of the "
+              "signed 32-bit difference; boundary values where sums of the estimator's terms pass 2^31 / 2^32), as first sample and "
+              "after an ordinary history (judged by the monitors only: the values overflow TLC's integers inside the estimator). "
+              "Non-trivial = distinct (configuration, delay, drive) clean runs and behaviours containing forged ACKs"),
         assumptions=["settings fixed before traffic", "the driver flushes exactly when the core asks (interval drive) or polls Update at Check's time"])
 
 
